@@ -8,7 +8,7 @@ from typing import Dict, List, Optional, Set, Tuple
 from ..core import astutil as A
 from ..core.index import AnalysisError, FuncInfo
 from ..selftest import M
-from .common import may_conds, BASE_ICOMPILER, T, attr_stores, calls_named, conds, every_origin, facts, need, subscript_stores, where
+from .common import conjuncts, may_conds, BASE_ICOMPILER, T, attr_stores, calls_named, conds, every_origin, facts, need, subscript_stores, where
 
 KERN1 = "ufo2ft.featureWriters.kernFeatureWriter"
 KERN2 = "ufo2ft.featureWriters.kernFeatureWriter2"
@@ -101,7 +101,15 @@ def r101(prog, chk):
         il = inner[0]
         ok = isinstance(il.iter, ast.Name) and il.iter.id == allp
         conts = [s for s in ast.walk(il) if isinstance(s, ast.Continue)]
-        okc = len(conts) == 2 and all(isinstance(ix.parent(s), ast.If) and any(isinstance(x, ast.Compare) and isinstance(x.ops[0], ast.NotIn) and "glyphSet" in T(x.comparators[0]) for x in ast.walk(ix.parent(s).test)) for s in conts)
+        def skips_unknown_glyph(cont):
+            """the innermost guard of the skip reads as a conjunction with a literal `<side> not in <glyph set>`"""
+            gs = [g for g in conds(prog, f, cont) if g.polarity in (True, False) and any(a is il for a in ix.ancestors(g.loc))]
+            for g in gs:
+                lits = conjuncts(g) or []
+                if any(isinstance(x, ast.Compare) and len(x.ops) == 1 and isinstance(x.ops[0], ast.NotIn) and "glyphSet" in T(x.comparators[0]) for x in lits):
+                    return True
+            return False
+        okc = len(conts) == 2 and all(skips_unknown_glyph(s_) for s_ in conts)
         chk.ob("R10.1", f"{f.short}|every pair of the union is visited for every source; only pairs naming unknown glyphs are skipped", ok and okc, where(f, il), detail=f"for pair in {allp}; {len(conts)} skips",
                message=f"{f.short}: a source does not contribute a value for every collected pair")
         # (d) location and kerning come from the same loop variable
@@ -300,12 +308,34 @@ def r105(prog, chk):
     txt = T(gl.node, 600)
     ds, loc = gl.params()
     mb = [c for c in calls_named(gl, "map_backward")]
-    ok = len(mb) == 1 and T(mb[0].func.value) == ds and T(mb[0].args[0]) == loc
     r = A.returns_of(gl.node)
-    ok = ok and len(r) == 1 and isinstance(r[0].value, ast.DictComp) and ".tag" in T(r[0].value.key) and "getAxis" in T(r[0].value.key)
+    # form A: the whole location through the document, then re-keyed by tag
+    okA = len(mb) == 1 and T(mb[0].func.value) == ds and len(mb[0].args) == 1 and T(mb[0].args[0]) == loc \
+        and len(r) == 1 and isinstance(r[0].value, ast.DictComp) and ".tag" in T(r[0].value.key) and "getAxis" in T(r[0].value.key)
+    # form B: axis by axis - result[axis.tag] = axis.map_backward(<this axis' design coordinate>)
+    okB = False
+    loops = [n for n in A.body_nodes(gl.node) if isinstance(n, ast.For) and isinstance(n.target, ast.Name) and T(n.iter) == f"{ds}.axes"]
+    if len(loops) == 1 and len(mb) == 1:
+        ax = loops[0].target.id
+        sts = [(s_, t, v) for s_, t, v in subscript_stores(gl) if T(t.slice) == f"{ax}.tag" and v is mb[0]]
+        okB = len(sts) == 1 and T(mb[0].func.value) == ax and len(mb[0].args) == 1 and len(r) == 1 and T(r[0].value) == T(sts[0][1].value) \
+            and not any(isinstance(x, (ast.Continue, ast.Break)) for x in ast.walk(loops[0]))
+        if okB:
+            okv, _ = every_origin(prog, gl, mb[0].args[0], lambda x, ff: (isinstance(x, ast.Subscript) and T(x.value) == loc and T(x.slice) == f"{ax}.name")
+                                  or (isinstance(x, ast.Call) and isinstance(x.func, ast.Attribute) and x.func.attr == "get" and T(x.func.value) == loc and x.args and T(x.args[0]) == f"{ax}.name")
+                                  or (isinstance(x, ast.Call) and isinstance(x.func, ast.Attribute) and x.func.attr == "map_forward" and T(x.func.value) == ax), allow_const=False)
+            okB = okv
+    ok = okA or okB
+    # a coordinate is never chosen by truthiness: 0 is a position on the axis, not "no value"
+    truthy = [n for n in A.body_nodes(gl.node) if (isinstance(n, ast.BoolOp) and not isinstance(ix.parent(n), (ast.If, ast.While, ast.BoolOp, ast.IfExp, ast.UnaryOp)))
+              or (isinstance(n, ast.IfExp) and not isinstance(n.test, (ast.Compare, ast.BoolOp)))
+              or (isinstance(n, ast.If) and isinstance(n.test, (ast.Name, ast.Attribute, ast.Subscript, ast.Call)) and not (isinstance(n.test, ast.Call) and A.callee_name(n.test) in ("isinstance", "hasattr")))]
+    chk.ob("R10.5", f"{gl.short}|no axis coordinate is chosen by truthiness", not truthy, where(gl, truthy[0]) if truthy else where(gl), detail="0 is a coordinate",
+           message=f"{gl.short}: an axis coordinate goes through a truthiness test (`{T(truthy[0], 60) if truthy else ''}`): a master at coordinate 0 is treated as having no value "
+                   f"on that axis and its kerning / anchor values are filed at the default location")
     chk.ob("R10.5", f"{gl.short}|design location mapped backward to user space, keyed by axis tag", ok, where(gl), detail="designspace.map_backward(location); {getAxis(k).tag: v}",
            message="get_userspace_location no longer converts a design-space location to user space keyed by axis tag (values land at the wrong place of the axis mapping)")
-    chk.minimum("R10.5", 3)
+    chk.minimum("R10.5", 4)
 
 
 # ----------------------------------------------------------------------------- R10.6
@@ -392,6 +422,12 @@ def r107(prog, chk):
 
 
 MUTANTS = [
+    M("user-space location computed axis by axis, coordinate 0 taken for 'missing' (seeded C10i)", "ufo2ft/util.py", "get_userspace_location",
+      "location_user = designspace.map_backward(location)\nreturn {designspace.getAxis(k).tag: v for k, v in location_user.items()}",
+      "location_user = {}\nfor axis in designspace.axes:\n    value = location.get(axis.name) or axis.map_forward(axis.default)\n    location_user[axis.tag] = axis.map_backward(value)\nreturn location_user", rule="R10.5"),
+    M("user-space location computed axis by axis", "ufo2ft/util.py", "get_userspace_location",
+      "location_user = designspace.map_backward(location)\nreturn {designspace.getAxis(k).tag: v for k, v in location_user.items()}",
+      "location_user = {}\nfor axis in designspace.axes:\n    value = location.get(axis.name, axis.map_forward(axis.default))\n    location_user[axis.tag] = axis.map_backward(value)\nreturn location_user", kind="equiv"),
     M("kerning groups read from the default source only (seeded C10h)", "ufo2ft/featureWriters/kernFeatureWriter.py", "KernFeatureWriter.getKerningGroups",
       "fonts = [source.font for source in self.context.font.sources]", "fonts = [self.context.font.findDefault().font]", rule="R10.7"),
     M("kern writer 2: groups of the first source only", "ufo2ft/featureWriters/kernFeatureWriter2.py", "get_kerning_groups",
